@@ -1,0 +1,20 @@
+//go:build verif
+
+package caldav
+
+import "time"
+
+// Exports for the verification harness in /verif (property C16): the text
+// codec of the unexported dateWithUTCTime. Compiled only with the "verif"
+// build tag; changes no behaviour.
+
+func VerifMarshalDateWithUTCTime(t time.Time) ([]byte, error) {
+	d := dateWithUTCTime(t)
+	return d.MarshalText()
+}
+
+func VerifUnmarshalDateWithUTCTime(b []byte) (time.Time, error) {
+	var d dateWithUTCTime
+	err := d.UnmarshalText(b)
+	return time.Time(d), err
+}
